@@ -127,6 +127,8 @@ def _soft_table():
 def unrecognised(rule: str, role: str, reason: str) -> bool:
     if (rule, _norm_role(role)) in _soft_table():
         return True
+    if rule == "R-COMPAT-TABLE" and role == "evaluable":
+        return True  # the decision function left the fragment the finite-domain evaluator reads (R-COMPAT-READSET still speaks)
     if rule in _HARD_RULES:
         return False
     if _SOFT_ROLE.search(role or "") and (reason or "").startswith("0 site"):
